@@ -87,7 +87,6 @@ pub fn key_string(kt: &KeyTy, k: &Val) -> Option<String> {
             }
         }
         (KeyTy::UnitVariant(_, vars), Val::Variant(i, _)) => Some(vars[*i].clone()),
-        (KeyTy::Char, Val::Char(c)) => Some(c.to_string()),
         _ => None,
     }
 }
